@@ -1139,6 +1139,13 @@ func (c *c01G) round(h, r int, locked *int) (committed bool) {
 		c.emit("tmo 3")
 	}
 	c.noise(h, r)
+	if *locked >= 0 && r >= 2 && g.Intn(5) == 0 {
+		// delayed polka of an old round for another block
+		b3 := c.anyBlock()
+		if b3 != *locked {
+			c.votes(h, 0, g.Intn(r-1), b3, q)
+		}
+	}
 	switch {
 	case kind <= 5: // polka for b
 		c.votes(h, 0, r, b, needOthers+g.Intn(2))
@@ -1246,6 +1253,54 @@ func (c *c01G) f1Script() {
 	c.emit("tmo 3")
 }
 
+// a delayed polka of an OLD round (below the lock round) for another block arrives after the validator
+// has moved past the round it locked in: it must stay locked (unlock needs lockedRound < polka round).
+func (c *c01G) latePolkaScript() {
+	h := 1
+	q := c.n*2/3 + 1
+	o := c.others()
+	A := o[:q-1]
+	b := c.blockBy(c.proposer(h, 1))
+	b2 := b
+	for b2 == b {
+		b2 = c.anyBlock()
+	}
+	// round 0 passes with nil votes
+	c.emit("tmo 3")
+	for _, sg := range A {
+		c.vote(sg, h, 0, 0, -1)
+	}
+	for _, sg := range A {
+		c.vote(sg, h, 1, 0, -1)
+	}
+	// round 1: lock b
+	c.emit("prop %d %d %d %d -1", c.proposer(h, 1), h, 1, b)
+	c.emit("part %d %d", h, b)
+	for _, sg := range A {
+		c.vote(sg, h, 0, 1, b)
+	}
+	for _, sg := range A {
+		c.vote(sg, h, 1, 1, -1)
+	}
+	c.emit("tmo 7")
+	if c.g.Intn(3) == 0 { // one more round on top
+		c.emit("tmo 3")
+		for _, sg := range A {
+			c.vote(sg, h, 0, 2, -1)
+		}
+		c.emit("tmo 5")
+		for _, sg := range A {
+			c.vote(sg, h, 1, 2, -1)
+		}
+	}
+	// the late polka of round 0 for b2
+	for _, sg := range o[:q] {
+		c.vote(sg, h, 0, 0, b2)
+	}
+	c.emit("tmo 3")
+	c.emit("tmo 5")
+}
+
 func c01GenWith(g *Gen, crashy int, die bool) {
 	for i := 0; i < g.N; i++ {
 		n := 4
@@ -1255,7 +1310,14 @@ func c01GenWith(g *Gen, crashy int, die bool) {
 		c := &c01G{g: g, n: n, me: g.Intn(n), crashy: crashy, die: die}
 		g.Emit("init %d %d", c.n, c.me)
 		g.Emit("start")
-		if !die && n == 4 && c.proposer(1, 0) != c.me && g.Intn(25) == 0 {
+		if n == 4 && c.proposer(1, 1) != c.me && g.Intn(10) == 0 {
+			save := c.crashy
+			if !die {
+				c.crashy = 0
+			}
+			c.latePolkaScript()
+			c.crashy = save
+		} else if !die && n == 4 && c.proposer(1, 0) != c.me && g.Intn(25) == 0 {
 			save := c.crashy
 			c.crashy = 0
 			c.f1Script()
